@@ -61,6 +61,100 @@ pub fn judge_sup(sup: Sup<Trace>, script: &Script, flavor: Flavor, progress_prop
     }
 }
 
+/// C11 "the cache then behaves like a fresh one": the part of a below-capacity history that follows
+/// its last clear() is replayed, at the same virtual instants and with the same tick instants, on a
+/// freshly built cache (which starts with a clear() of its own so that the counting periods align);
+/// every observable of the two runs must agree record by record. Not compared: popularity estimates
+/// and gets_kept/gets_dropped (look-ups parked in the ring stripes legitimately survive a clear and
+/// shift the batch boundaries) and the callbacks/drops of the clear record itself.
+pub fn fresh_equivalence(script: &Script, tr: &Trace, flavor: Flavor, watchdog: Duration, rep: &mut Report) -> bool {
+    use crate::script::Step;
+    if !script.below_capacity {
+        return true;
+    }
+    let Some(c) = script.steps.iter().rposition(|s| matches!(s, Step::Clear)) else { return true };
+    if script.steps.len() - c < 4 {
+        return true;
+    }
+    let Some(i0) = tr.obs.iter().position(|o| o.step == c && o.tick_at.is_none()) else { return true };
+    let t = tr.obs[i0].vnow;
+    let interval = tr.interval_ns.max(1);
+    let first_tick = script.start_ns as i128 + (script.tick_phase_ns % interval) as i128;
+    let phase = (first_tick - t as i128).rem_euclid(interval as i128) as u64;
+    if phase == 0 {
+        rep.count("c11_fresh_runs_skipped_tick_exactly_at_clear");
+        return true;
+    }
+    let max_cost = script.steps[..c].iter().rev().find_map(|s| if let Step::UpdateMaxCost { m } = s { Some(*m) } else { None }).unwrap_or(script.cfg.max_cost);
+    let mut fresh = script.clone();
+    fresh.cfg.max_cost = max_cost;
+    fresh.start_ns = t;
+    fresh.tick_phase_ns = phase;
+    fresh.steps = script.steps[c..].to_vec();
+    let sup = run_one(flavor, &fresh, watchdog);
+    let stop = !matches!(sup, Sup::Done(_) | Sup::Panicked);
+    let Some(tr2) = judge_sup(sup, &fresh, flavor, &["C11"], rep) else { return !stop };
+    rep.count("c11_suffixes_replayed_on_a_fresh_cache");
+    let a = &tr.obs[i0..];
+    let b = &tr2.obs[..];
+    let wit = |what: &str, i: usize, x: String, y: String| json!({"script": script.describe(script.steps.len()), "flavor": flavor.name(), "last_clear_at_step": c, "record_after_clear": i, "step": script.steps.get(c + b.get(i).map_or(0, |o| o.step)).map(|s| s.short()), "field": what, "after_clear": x, "fresh_cache": y});
+    if a.len() != b.len() {
+        rep.violate("C11", "clear/not-like-fresh", format!("{} records after the clear, {} on the fresh cache (ticks differ)", a.len(), b.len()), wit("records", 0, a.len().to_string(), b.len().to_string()));
+        return true;
+    }
+    let seen = |s: &Option<crate::driver::Seen>| s.as_ref().map(|s| (s.id, s.key, s.aux, s.ttl));
+    for (i, (x, y)) in a.iter().zip(b.iter()).enumerate() {
+        macro_rules! cmp {
+            ($what:expr, $l:expr, $r:expr) => {{
+                let (l, r) = ($l, $r);
+                if l != r {
+                    rep.violate("C11", "clear/not-like-fresh", format!("record {i} after the clear ({}): {} differs from a fresh cache: {:x?} vs {:x?}", script.steps[x.step].short(), $what, l, r), wit($what, i, format!("{:x?}", l), format!("{:x?}", r)));
+                    return true;
+                }
+            }};
+        }
+        rep.count("c11_records_compared_with_fresh_cache");
+        cmp!("step", x.step - c, y.step);
+        cmp!("tick instant", x.tick_at, y.tick_at);
+        cmp!("virtual time", x.vnow, y.vnow);
+        cmp!("return value", x.ret_bool, y.ret_bool);
+        cmp!("error", x.ret_err.clone(), y.ret_err.clone());
+        cmp!("wait error", x.wait_err.clone(), y.wait_err.clone());
+        cmp!("value seen by the step", x.seen.as_ref().map(seen), y.seen.as_ref().map(seen));
+        cmp!("update applied inside the call", x.update_path, y.update_path);
+        if i > 0 {
+            let evs = |o: &crate::script::Obs| {
+                let mut v: Vec<String> = o.events.iter().map(|e| format!("{:x?}", e.kind)).collect();
+                v.sort();
+                v
+            };
+            cmp!("callbacks and drops", evs(x), evs(y));
+        }
+        cmp!("get of every key", x.probe.get.iter().map(seen).collect::<Vec<_>>(), y.probe.get.iter().map(seen).collect::<Vec<_>>());
+        cmp!("get_mut of every key", x.probe.get_mut.iter().map(seen).collect::<Vec<_>>(), y.probe.get_mut.iter().map(seen).collect::<Vec<_>>());
+        cmp!("get_ttl of every key", x.probe.ttl.clone(), y.probe.ttl.clone());
+        let store = |o: &crate::script::Obs| {
+            let mut v: Vec<(u64, u64, u64, u64, u64)> = o.snap.store.iter().map(|e| (e.index, e.conflict, e.ttl_ns, e.created_ns, e.tag)).collect();
+            v.sort();
+            v
+        };
+        cmp!("resident entries (index, conflict, ttl, created, value)", store(x), store(y));
+        let costs = |o: &crate::script::Obs| {
+            let mut v = o.snap.costs.clone();
+            v.sort();
+            v
+        };
+        cmp!("per-key charges", costs(x), costs(y));
+        cmp!("used", x.snap.used, y.snap.used);
+        cmp!("max_cost", x.snap.max_cost, y.snap.max_cost);
+        cmp!("len()", x.snap.len, y.snap.len);
+        cmp!("metrics (hits, misses, keys added/updated/evicted, cost added/evicted, sets dropped/rejected)", x.metrics.map(|m| m[..9].to_vec()), y.metrics.map(|m| m[..9].to_vec()));
+        cmp!("ratio()", x.ratio.map(|r| r.to_bits()), y.ratio.map(|r| r.to_bits()));
+        cmp!("life-expectancy histogram", x.hist.clone(), y.hist.clone());
+    }
+    !stop
+}
+
 pub const PROGRESS_PROPS: [&str; 11] = ["C04", "C05", "C06", "C08", "C10", "C11", "C15", "C16", "C17", "C19", "C20"];
 
 pub fn run(ctx: &Ctx, rng: Rng, rep: &mut Report) {
@@ -118,6 +212,10 @@ pub fn run(ctx: &Ctx, rng: Rng, rep: &mut Report) {
                 rep.sample(json!({"history": h, "flavor": flavor.name(), "script": script.describe(24), "observed": {"ticks": out.ticks, "reclaimed": out.reclaimed, "evicted_for_room": out.evicted_for_room, "clears": out.clears, "updates": out.updates}}));
             }
             let _ = before;
+            if ctx.prop == "C11" && h % 2 == 0 && !fresh_equivalence(&script, &tr, flavor, watchdog, rep) {
+                rep.add("histories_not_run_after_hang", histories - h - 1);
+                break;
+            }
         }
         if stop {
             rep.add("histories_not_run_after_hang", histories - h - 1);
